@@ -85,7 +85,18 @@ func TestVerif_C13_RawClientOffers(t *testing.T) {
 					}
 					defer nc.Close()
 					key := base64.StdEncoding.EncodeToString([]byte(fmt.Sprintf("verif-key-%06d", oi*100+rep)))
-					req := "GET / HTTP/1.1\r\nHost: x\r\nUpgrade: websocket\r\nConnection: Upgrade\r\nSec-WebSocket-Version: 13\r\nSec-WebSocket-Key: " + key + "\r\n"
+					// the same request in the forms other clients and proxies give it (RFC 7230: header names in any case, a list
+					// header may come as several lines or with other tokens; RFC 6455 4.2.1: the tokens compare case-insensitively)
+					forms := []string{
+						"Upgrade: websocket\r\nConnection: Upgrade\r\n",
+						"upgrade: WebSocket\r\nconnection: keep-alive, Upgrade\r\n",
+						"Connection: keep-alive\r\nConnection: Upgrade\r\nUpgrade: websocket\r\n",
+						"UPGRADE: websocket\r\nCONNECTION: upgrade\r\n",
+					}
+					form := (oi + rep) % len(forms)
+					info["header_form"] = forms[form]
+					m.Count(fmt.Sprintf("handshake_header_form_%d", form), 1)
+					req := "GET / HTTP/1.1\r\nHost: x\r\n" + forms[form] + "Sec-WebSocket-Version: 13\r\nSec-WebSocket-Key: " + key + "\r\n"
 					if offer != "" {
 						req += "Sec-WebSocket-Extensions: " + offer + "\r\n"
 					}
